@@ -1803,3 +1803,156 @@ Section DataLengthInit.
     destruct k; [exact D9|apply add_attribute_invD; [exact I|exact D9]|exact D9].
   Qed.
 End DataLengthInit.
+
+(* ================================================================== what the values setter writes *)
+Lemma firstn_upd_snoc {A} k (x : A) : forall l, k < length l -> firstn (S k) (upd k x l) = firstn k l ++ [x].
+Proof.
+  induction k as [|k IH]; intros [|a l] H; simpl in H; try lia; [reflexivity|].
+  simpl upd. change (firstn (S (S k)) (a :: upd k x l)) with (a :: firstn (S k) (upd k x l)).
+  rewrite IH by lia. reflexivity.
+Qed.
+
+(* element-wise copy into positions k, k+1, ... of a long enough array, every cast succeeding: the prefix is kept, the cast
+   cells follow *)
+Lemma write_cells_all f cs : forall k data cs',
+  cast_all f cs = Ret cs' -> k + length cs <= length data ->
+  write_cells f (seq k (length cs)) cs data = (firstn k data ++ cs' ++ skipn (k + length cs) data, None).
+Proof.
+  induction cs as [|c cs IH]; intros k data cs' C L.
+  - simpl in C. inversion C; subst. simpl. rewrite Nat.add_0_r, firstn_skipn. reflexivity.
+  - simpl in C. destruct (f c) as [c'|] eqn:E; [|discriminate].
+    destruct (cast_all f cs) as [r|] eqn:C2; [|discriminate]. inversion C; subst. clear C.
+    simpl length. simpl seq. simpl write_cells. rewrite E.
+    simpl in L.
+    rewrite (IH (S k) (upd k c' data) r eq_refl) by (rewrite upd_length; lia).
+    rewrite firstn_upd_snoc by lia. rewrite <- app_assoc. simpl. f_equal. f_equal. f_equal. f_equal.
+    replace (S k + length cs) with (k + S (length cs)) by lia.
+    (* beyond the written position the update is invisible *)
+    clear. revert k. induction data as [|a data IHd]; intros k; [destruct k; reflexivity|].
+    destruct k as [|k]; simpl; [reflexivity|]. apply IHd.
+Qed.
+
+Lemma write_cells_whole f cs data cs' :
+  cast_all f cs = Ret cs' -> length data = length cs ->
+  write_cells f (seq 0 (length cs)) cs data = (cs', None).
+Proof.
+  intros C L. rewrite (write_cells_all f cs 0 data cs' C) by lia.
+  simpl. rewrite skipn_all2 by lia. rewrite app_nil_r. reflexivity.
+Qed.
+
+Lemma write_cells_none_cast f : forall ps cs data d',
+  length ps = length cs -> write_cells f ps cs data = (d', None) -> exists cs', cast_all f cs = Ret cs'.
+Proof.
+  induction ps as [|p ps IH]; intros [|c cs] data d' L H; simpl in L; try discriminate.
+  - exists []. reflexivity.
+  - simpl in H. destruct (f c) as [c'|e] eqn:E; [|discriminate].
+    destruct (IH cs (upd p c' data) d') as [r R]; [lia|exact H|]. exists (c' :: r). simpl. rewrite E, R. reflexivity.
+Qed.
+
+Lemma chunks_length m cnt : forall cells, length (chunks m cnt cells) = cnt.
+Proof. induction cnt as [|c IH]; intros cells; simpl; [reflexivity|]. rewrite IH. reflexivity. Qed.
+
+Lemma chunks_rows m cnt : forall cells, length cells = cnt * m -> Forall (fun row => length row = m) (chunks m cnt cells).
+Proof.
+  induction cnt as [|c IH]; intros cells L; simpl; constructor.
+  - rewrite firstn_length. simpl in L. lia.
+  - apply IH. rewrite skipn_length. simpl in L. lia.
+Qed.
+
+Section ValuesContent.
+  Variable pycast : dtype -> pyval -> outcome pyval.
+  Variable arrcast : dtype -> dtype -> pyval -> outcome pyval.
+  Variable infer : list pyval -> dtype.
+  Notation setattr_var := (setattr_var pycast arrcast).
+  Notation set_rows_arr := (set_rows_arr pycast arrcast).
+  Notation values_setter := (values_setter pycast arrcast infer).
+
+  (* whole-series assignment of an ndarray row of the series' own dtype and length *)
+  Lemma setattr_var_row x v c1 s s1 u :
+    assoc x (vars s) = Some v -> vshape v = [n_of s] -> length (vdata v) = n_of s -> length c1 = n_of s ->
+    setattr_var x (OArr [length c1] (vdtype v) c1) s = (s1, Ret u) ->
+    exists c2, cast_all (arrcast (vdtype v) (vdtype v)) c1 = Ret c2 /\
+               s1 = set_vars s (assoc_set x (mkVar (vdtype v) [n_of s] c2) (vars s)).
+  Proof.
+    intros A SH LD LC H. unfold Container.setattr_var in H. rewrite A in H. simpl is_sequence in H. cbv iota in H.
+    rewrite SH in H. unfold Container.assign_inplace in H. rewrite seq_length in H.
+    assert (B : bcast_arr (n_of s) [length c1] c1 = Some c1).
+    { unfold bcast_arr. rewrite LC.
+      assert (S1 : strip1 [n_of s] = [n_of s]) by (destruct (n_of s) as [|[|k]]; reflexivity).
+      rewrite S1, Nat.eqb_refl. reflexivity. }
+    rewrite B in H.
+    destruct (write_cells (arrcast (vdtype v) (vdtype v)) (seq 0 (n_of s)) c1 (vdata v)) as [d eo] eqn:WC.
+    destruct eo as [e|]; [discriminate H|].
+    destruct (write_cells_none_cast _ _ _ _ _ (eq_trans (seq_length _ _) (eq_sym LC)) WC) as [c2 C2].
+    exists c2. split; [exact C2|].
+    rewrite <- LC in WC. rewrite (write_cells_whole _ _ _ _ C2) in WC by congruence.
+    inversion WC; subst d. inversion H. unfold with_data. rewrite SH. reflexivity.
+  Qed.
+
+  (* obj.values = A (accepted): row i of A, cast to the dtype of the i-th declared variable, IS that variable afterwards
+     (same dtype, one cell per period); every other series is untouched *)
+  Theorem set_rows_arr_content src : forall nms rws s s',
+    InvV s -> InvD s -> NoDup nms -> length nms = length rws -> Forall (fun row => length row = n_of s) rws ->
+    set_rows_arr src nms rws s = (s', Ret tt) ->
+    Forall2 (fun x row => exists v c1 c2,
+               assoc x (vars s) = Some v /\ cast_all (arrcast src (vdtype v)) row = Ret c1 /\
+               cast_all (arrcast (vdtype v) (vdtype v)) c1 = Ret c2 /\
+               assoc x (vars s') = Some (mkVar (vdtype v) [n_of s] c2)) nms rws /\
+    (forall y, ~ In y nms -> assoc y (vars s') = assoc y (vars s)).
+  Proof.
+    induction nms as [|x nms IH]; intros rws s s' IV ID ND L F H.
+    - destruct rws; [|discriminate L]. simpl in H. inversion H; subst. split; [constructor|reflexivity].
+    - destruct rws as [|row rws]; [discriminate L|]. simpl in H.
+      destruct (assoc x (vars s)) as [v|] eqn:A; [|discriminate H].
+      destruct (cast_all (arrcast src (vdtype v)) row) as [c1|e] eqn:C1; [|discriminate H].
+      inversion F as [|? ? Lrow Frest]; subst. inversion ND as [|? ? Hx ND']; subst.
+      destruct (setattr_var x (OArr [length c1] (vdtype v) c1) s) as [s1 [u|e]] eqn:SV; [|discriminate H].
+      assert (LC : length c1 = n_of s) by (rewrite (cast_all_length _ _ _ C1); exact Lrow).
+      destruct (setattr_var_row x v c1 s s1 u A (proj2 (proj2 IV) _ _ A) (ID _ _ A) LC SV) as [c2 [C2 E1]].
+      assert (N1 : n_of s1 = n_of s) by (subst s1; reflexivity).
+      assert (IV1 : InvV s1).
+      { pose proof (setattr_var_good pycast arrcast x (OArr [length c1] (vdtype v) c1) s) as G. rewrite SV in G.
+        eapply good_invV; eassumption. }
+      assert (ID1 : InvD s1).
+      { pose proof (setattr_var_invD pycast arrcast x (OArr [length c1] (vdtype v) c1) s) as G. rewrite SV in G.
+        apply G; [simpl; unfold prod_shape; simpl; lia|exact ID]. }
+      assert (OTH : forall y, y <> x -> assoc y (vars s1) = assoc y (vars s)).
+      { intros y Ny. subst s1. simpl. apply assoc_set_neq. exact Ny. }
+      destruct (IH rws s1 s' IV1 ID1 ND') as [F2 KEEP].
+      + simpl in L. lia.
+      + rewrite N1. exact Frest.
+      + exact H.
+      + split.
+        * constructor.
+          -- exists v, c1, c2. repeat split; try assumption.
+             rewrite (KEEP x Hx). subst s1. simpl. apply assoc_set_eq.
+          -- clear - F2 OTH Hx N1.
+             induction F2 as [|y row' ys rows' Hy F2' IHF]; constructor.
+             ++ destruct Hy as [v' [d1 [d2 [A' [C1' [C2' A2']]]]]].
+                exists v', d1, d2. rewrite <- N1. repeat split; try assumption.
+                rewrite <- A'. symmetry. apply OTH. intros ->. apply Hx. left. reflexivity.
+             ++ apply IHF. intros C. apply Hx. right. exact C.
+        * intros y Hy. rewrite (KEEP y); [|intros C; apply Hy; right; exact C].
+          apply OTH. intros ->. apply Hy. left. reflexivity.
+  Qed.
+
+  Theorem values_setter_array_content r m dt cells s s' :
+    Inv s -> InvD s -> NoDup (row_names s) -> length cells = r * m ->
+    values_setter (OArr [r; m] dt cells) s = (s', Ret tt) ->
+    Forall2 (fun x row => exists v c1 c2,
+               assoc x (vars s) = Some v /\ cast_all (arrcast dt (vdtype v)) row = Ret c1 /\
+               cast_all (arrcast (vdtype v) (vdtype v)) c1 = Ret c2 /\
+               assoc x (vars s') = Some (mkVar (vdtype v) [n_of s] c2)) (row_names s) (chunks m r cells) /\
+    (forall y, ~ In y (row_names s) -> assoc y (vars s') = assoc y (vars s)).
+  Proof.
+    intros I D ND LC H. unfold Container.values_setter in H.
+    destruct (values_stack s I) as [VS _]. rewrite VS in H.
+    destruct (list_eq_dec Nat.eq_dec [r; m] _) as [E|N]; [|discriminate H].
+    destruct (row_names s) as [|x0 rest] eqn:RN; [discriminate E|].
+    inversion E; subst r m. rewrite <- RN in *.
+    apply set_rows_arr_content; try assumption.
+    - exact (proj1 I).
+    - rewrite chunks_length, RN. reflexivity.
+    - apply chunks_rows. exact LC.
+  Qed.
+End ValuesContent.
